@@ -283,8 +283,14 @@ class StoreBackendMixin(object):
 
         if func_code is not None:
             filename = os.path.join(func_path, "func_code.py")
-            with self._open_item(filename, "wb") as f:
-                f.write(func_code.encode("utf-8"))
+            try:
+                with self._open_item(filename, "wb") as f:
+                    f.write(func_code.encode("utf-8"))
+            except FileNotFoundError:
+                # The location has been removed in between by a concurrent
+                # clear of the cache: the source code will be stored, and
+                # checked, by the next call.
+                pass
 
     def get_cached_func_code(self, call_id):
         """Store the code of the cached function."""
